@@ -24,9 +24,10 @@ type WriterCfg struct {
 	InitLen  int    `json:"init_len"` // bytes writer: len of the initial slice
 	InitCap  int    `json:"init_cap"` // bytes writer: cap of the initial slice (-1 = nil slice)
 	Sizes    []int  `json:"sizes"`
-	Reverse  bool   `json:"reverse"`   // late regions are filled in reverse order of allocation
-	CoTenant int    `json:"co_tenant"` // 0 off, 1 keep, 2 free again
-	PayPow2  bool   `json:"pay_pow2"`  // WriteBinary payloads live in buffers of power-of-two capacity
+	Reverse  bool   `json:"reverse"`        // late regions are filled in reverse order of allocation
+	CoTenant int    `json:"co_tenant"`      // 0 off, 1 keep, 2 free again
+	PayPow2  bool   `json:"pay_pow2"`       // WriteBinary payloads live in buffers of power-of-two capacity
+	Warm     int    `json:"warm,omitempty"` // (Malloc(1), Flush) cycles performed before the history starts (size-statistics ring wraps at 10)
 }
 
 type wop struct {
@@ -66,6 +67,8 @@ type writerSys struct {
 	nreg     int
 	failed   bool // a flush failed: everything must now return that error
 	dead     bool
+
+	warmWhat, warmSig string
 }
 
 func newWriterSys(cfg WriterCfg) *writerSys {
@@ -113,6 +116,31 @@ func (s *writerSys) Reset() {
 		dw := bufiox.NewDefaultWriter(s.sink)
 		s.w, s.dw = dw, dw
 	}
+	s.warmWhat, s.warmSig = "", ""
+	for i := 0; i < s.cfg.Warm && s.warmWhat == ""; i++ {
+		for _, o := range s.warmOps() {
+			if what, sig := s.Apply(o, true); what != "" {
+				s.warmWhat, s.warmSig = fmt.Sprintf("warm-up cycle %d: %s", i, what), sig
+				break
+			}
+		}
+	}
+}
+
+// warmOps: indices of malloc(1) and flush in the alphabet.
+func (s *writerSys) warmOps() []int {
+	var r []int
+	for i, o := range s.ops {
+		if o.kind == "malloc" && o.n == 1 {
+			r = append(r, i)
+		}
+	}
+	for i, o := range s.ops {
+		if o.kind == "flush" {
+			r = append(r, i)
+		}
+	}
+	return r
 }
 
 func (s *writerSys) Key() string {
@@ -145,6 +173,12 @@ func overlap(a, b []byte) bool {
 }
 
 func (s *writerSys) Apply(op int, check bool) (what, sig string) {
+	if s.warmWhat != "" { // a violation met during the warm-up cycles is reported by the first transition
+		what, sig = s.warmWhat, s.warmSig
+		s.warmWhat = ""
+		s.dead = true
+		return
+	}
 	o := s.ops[op]
 	if s.cfg.CoTenant != 0 {
 		mcache.VerifCoTenant(s.cfg.CoTenant == 1)
